@@ -25,6 +25,8 @@ def run(chk, tier):
     chk.configs.add("default")
     for r in (r_noread, r_copy, r_writers, r_direction, r_wallclock, r_filter, r_offset_range):
         chk.guarded(r, P)
+    from props import c02
+    chk.guarded(c02.r_wrappers, P, None)
     chk.assume("foreign TimeZone implementations are outside the analysed program")
     chk.assume("that local<->UTC round trips are identities on values (the one-day headroom arithmetic) is not decided")
     return {
